@@ -27,7 +27,9 @@ three resource dimensions per type.  A resource list is 3 tokens, `_` = key abse
   rvadd <shape> <rsv> <valid> <active> <assigned> <terminated> <groups>                  reservation handler OnAdd
   rvupd <shO> <shN> <rsv> (<valid> <active> <assigned> <terminated>)old (…)new <groups old> <groups new>   OnUpdate
   rvdel <shape> <rsv> <valid> <active> <assigned> <terminated> <groups>                  OnDelete
-     (sevOps / revOps decide which ledger ops happen)
+  dvref <kind 0 add | 1 update | 2 delete> <shapeA> <shapeB> <n> (<type> <minor> q q q)*   Device informer event; the entries are
+     the inventory the event installs IF it is decoded (delete: the invalidated one)
+     (sevOps / revOps / devOps decide which ledger ops happen)
   READ-ONLY steps (the model threads the ledger through them; `readonly_steps_preserve_state`):
   robegin                                            a new scheduling cycle (fresh preFilterState)
   roany                                              a read-only step whose result is not modelled (Filter with a restore state)
@@ -378,6 +380,19 @@ def runLine (d : DState) (line : String) : DState × List String :=
         let d' := applyShaped d (fun t =>
           revOps (.rsvUpdate so sn p { valid := ov, active := oac, pod := podObjOf go t oa ot }
                                      { valid := nv, active := nac, pod := podObjOf gn t na nt }))
+        (d', dump d'.node ++ [flagLine d'])
+      | none => (d, ["bad-op"])
+    else if kind = "dvref" then
+      match (do
+          let k ← pNat; let sa ← pShape; let sb ← pShape
+          let es ← pNat >>= fun n => pRep n (do let t ← pNat; let e ← pEntry; pure (t, e))
+          pEnd
+          pure (k, sa, sb, es)).run' rest with
+      | some (k, sa, sb, es) =>
+        if k > 2 then (d, ["bad-op"]) else
+        let d' := applyShaped d (fun t =>
+          let nt := mkMap ((es.filter (fun e => e.1 == t)).map (·.2))
+          devOps (if k = 0 then .devAdd sa nt else if k = 1 then .devUpdate sa sb nt else .devDelete sa nt))
         (d', dump d'.node ++ [flagLine d'])
       | none => (d, ["bad-op"])
     else if kind = "robegin" then
